@@ -34,6 +34,8 @@ CUT = _Marker("CUT")
 
 
 def is_effect_free(name):
+    if name.endswith(").String") or name.endswith(").Error") and not name.startswith("(*github.com/filecoin-project/go-data-transfer"):
+        return True
     return any(name.startswith(p) for p in EFFECT_FREE_PREFIXES)
 
 
@@ -145,6 +147,8 @@ class Calls:
                 fname = f.bound
                 return self.call_named(fr, st, fname, [recv] + args[1:], rtypes, pos, ins)
             # symbolic function value
+            if f.ref is not None and str(f.ref) in st.ghost.get("cancel_funcs", {}):
+                return [(st, None)]     # context.CancelFunc: no effect on the channel layer
             if f.ref is not None:
                 self.check_cond(fr, st, f.ref != NIL, "nil-func-call", ins)
             return self.effect_call(st, "dyncall:" + (short(f.t) if f.t else "?"), args, rtypes, pos)
@@ -153,7 +157,8 @@ class Calls:
     def call_iface(self, fr, st, iface_t, mname, args, rtypes, pos, ins):
         recv = args[0]
         if self.is_pure_method(iface_t, mname):
-            name = "m." + mname
+            pu = self.pure_uf(mname, self.ir.iface_method_sig(iface_t, mname))
+            name = pu[0] if pu else "m." + mname
             al = leaves(TupleV(args[1:])) if len(args) > 1 else []
             vals = [st.from_uf(rt, name + ("#%d" % i if len(rtypes) > 1 else ""), [recv.ref] + al) for i, rt in enumerate(rtypes)]
             return [(st, self.pack(rtypes, vals))]
@@ -191,6 +196,12 @@ class Calls:
             st.notes.append(("abstract", "inline depth exceeded at " + short(name)))
         if is_effect_free(name) or (decl is not None and "effectfree" in decl.flags):
             vals = [st.fresh(rt, "r") for rt in rtypes]
+            for v in vals:
+                # library values of the whitelisted (logging / tracing / formatting) APIs are real objects
+                if isinstance(v, IfaceV) and not name.startswith("errors."):
+                    st.assume(v.ref != NIL)
+                elif isinstance(v, PtrV):
+                    st.assume(z3.Not(to_bool(v.nil)))
             self.abstracted.add(short(name))
             return [(st, self.pack(rtypes, vals))]
         return self.effect_call(st, name, args, rtypes, pos)
@@ -223,6 +234,12 @@ class Calls:
             self.check_pre(fr, st, goal, decl, cl, ins)
             st.assume(goal)
         vals = [st.fresh(rt, "r") for rt in rtypes]
+        if "effectfree" in flags:
+            for v in vals:
+                if isinstance(v, IfaceV) and not (rtypes and rtypes[-1] == "error" and v is vals[-1]):
+                    st.assume(v.ref != NIL)
+                elif isinstance(v, PtrV):
+                    st.assume(z3.Not(to_bool(v.nil)))
         # results bound
         rn = dict(names)
         self.bind_results(rn, fn, vals, rtypes, decl)
@@ -230,10 +247,10 @@ class Calls:
         for cl in decl.get("modifies"):
             self.havoc_modifies(st, cl, names, fn, decl)
         ctx2 = SpecCtx(self, st, pre_state, rn, fr_pkg=(fn["pkg"] if fn else decl.pkg))
+        ctx2.pol = -1
         for cl in decl.get("ensures"):
-            if cl.extra.get("trace"):
-                continue
-            st.assume(to_bool(ctx2.eval(cl.ast)))
+            for part in (cl.extra.get("caller_view") if cl.extra.get("trace") else [cl.ast]):
+                st.assume(to_bool(ctx2.eval(part)))
         kind = "call"
         if "pure" in flags or "effectfree" in flags:
             kind = None
